@@ -25,7 +25,33 @@ from mosromgr.mostypes import MosFile, RunningOrder  # noqa: E402
 from . import treejson  # noqa: E402
 
 assert mosromgr.__file__.startswith(REPO + '/'), mosromgr.__file__
-logging.disable(logging.CRITICAL)
+
+# ---- process configuration the outcome must not depend on -----------------------------------------
+# The library logs (it calls logging.basicConfig(level=INFO) at import); whether logging is disabled, at the
+# library's default level, or at DEBUG is the application's business and changes nothing a property talks
+# about.  Every observation runs under one of the three, chosen from a hash of its input (so a replay picks
+# the same one) and recorded with the observation.
+LOG_MODES = ('logging-disabled', 'logging-default', 'logging-debug')
+logging.getLogger().handlers[:] = [logging.NullHandler()]          # never write log records anywhere
+
+
+def cfg_for(key):
+    import zlib
+    return LOG_MODES[zlib.crc32(key.encode('utf-8', 'surrogatepass')) % 3]
+
+
+def apply_cfg(mode):
+    lib = logging.getLogger('mosromgr')
+    if mode == 'logging-disabled':
+        logging.disable(logging.CRITICAL)
+        lib.setLevel(logging.NOTSET)
+    else:
+        logging.disable(logging.NOTSET)
+        lib.setLevel(logging.DEBUG if mode == 'logging-debug' else logging.NOTSET)
+    return mode
+
+
+apply_cfg('logging-disabled')
 
 
 def err_name(e):
@@ -56,6 +82,7 @@ def lib_warnings(ws):
 
 def classify_text(text):
     """-> ('kind', name) or ('err', name)"""
+    apply_cfg(cfg_for(text if isinstance(text, str) else repr(text)))
     try:
         with warnings.catch_warnings():
             warnings.simplefilter('ignore')
@@ -75,8 +102,12 @@ def add(ro, msg, via='add'):
     """``ro += msg`` on live objects (via='merge': the documented ``msg.merge(ro)``, which is what
     ``+`` calls on a running order that is not completed); returns the observation (err, warns, tree after)."""
     err = None
+    cfg = apply_cfg(cfg_for(str(msg)))
     with warnings.catch_warnings(record=True) as w:
         warnings.simplefilter('always')
+        # the library never relies on deprecated behaviour: a DeprecationWarning (e.g. Element truth-testing, which
+        # raises under -W error and in future interpreters) is reported as what it becomes there - an exception
+        warnings.filterwarnings('error', category=DeprecationWarning)
         try:
             r = (ro + msg) if via == 'add' else msg.merge(ro)
             if r is not ro:
@@ -84,7 +115,7 @@ def add(ro, msg, via='add'):
         except Exception as e:  # noqa: BLE001
             err = err_name(e)
     out = {'err': err, 'warns': lib_warnings(w), 'ro': treejson.to_tree(ro.xml),
-           'completed_attr': bool(ro.completed)}
+           'completed_attr': bool(ro.completed), 'cfg': cfg}
     if ro.xml.find('mosromgrmeta') is not None:
         # the running order is completed now: the same message once more, with every warning promoted to
         # an error (python -W error) - the refusal must not depend on the interpreter's warning filter
